@@ -30,6 +30,8 @@ pub use copy_future::verif_copy;
 mod multiaddr_ext;
 mod priv_client;
 mod protocol;
+#[cfg(libp2p_verif)]
+pub mod verif;
 
 mod proto {
     #![allow(unreachable_pub)]
